@@ -832,9 +832,10 @@ def check_sem(case, H):
 def nat_states(case):
     """Sampled nat states: slots in 0..5 and parameters A, B in 0..4."""
     base = states_for(case, names=list(range(NSLOTS)) + PARAMS, lo=0, hi=5, n=24)
-    for st in base:
-        for p in PARAMS:
-            st[p] = st[p] % 5
+    # four parameter valuations, six states each (the assumptions are judged per valuation)
+    combos = [(0, 0), (1, 2), (3, 1), (base[-1]['A'] % 5, base[-1]['B'] % 5)]
+    for i, st in enumerate(base):
+        st['A'], st['B'] = combos[i % 4]
     return base
 
 
